@@ -1,23 +1,28 @@
 (* Props/C18.v — property C18: the ReAct agent alternates model and tools faithfully and stops.
    Statements only; proofs in Proofs/React.v; model in Model/React.v.
 
-   Reading guide.  [tn] is the tools node (any function from the calls of an assistant message to
-   tool messages or an error; Model/Tools.v's in the correspondence), [rd] / [rd_nonempty] the
+   Reading guide.  [tn] / [tns] are the tools node's Invoke and Stream (any functions from the calls of
+   an assistant message to tool messages resp. to call ids + merged sparse frames, or an error;
+   Model/Tools.v's in the correspondence), [rd] / [rd_nonempty] the
    return-directly set, [modifier] the message modifier, [checker] the StreamToolCallChecker,
    [script] the model's behaviour (its k-th reply, whole and as stream chunks, or a failure).
    [react_spec] is the property text as a loop; [agent_run] is the superstep-level model of the
-   graph NewAgent builds.  [step_exact checker md s] = in mode [md] the consumer of the model's
-   output receives the scripted reply and the checker reports "tool calls" iff it has some. *)
-From Eino Require Import Base.Util Model.Tools Model.Graph Model.React Model.ReactGraph Model.Host Proofs.React Proofs.ReactExt Proofs.ReactGraph Proofs.Host.
+   graph NewAgent builds.  [reply_exact .. checker md s] = in mode [md] the consumer of the model's
+   output receives the scripted reply and the checker reports "tool calls" iff it has some
+   ([step_exact]), and - Stream mode - the consumers of the tools node's output stream obtain what
+   Invoke returns ([tools_exact]: the position-wise concatenation of the frames for the chat node,
+   the frame-by-frame filter of direct_return; property C17, theorem tools_node_streams_exactly). *)
+From Coq Require Import Permutation.
+From Eino Require Import Base.Util Model.Tools Model.Graph Model.React Model.ReactGraph Model.Host Proofs.Tools Proofs.React Proofs.ReactExt Proofs.ReactStream Proofs.ReactGraph Proofs.Host.
 Local Open Scope nat_scope.
 Local Open Scope string_scope.
 
 (* the graph-level loop IS the specification, for every script, tools node, return-directly
    set, modifier and step limit — in any mode in which the checker is exact *)
 Theorem react_refines_spec :
-  forall tn rd rd_nonempty modifier visible checker md script max_steps input,
-    Forall (step_exact checker md) script ->
-    agent_run tn rd rd_nonempty modifier visible checker md max_steps script input
+  forall tn tns rd rd_nonempty modifier visible checker md script max_steps input,
+    Forall (reply_exact tn tns rd rd_nonempty checker md) script ->
+    agent_run tn tns rd rd_nonempty modifier visible checker md max_steps script input
     = react_spec tn rd rd_nonempty modifier visible script max_steps input.
 Proof. exact agent_refines_spec. Qed.
 Print Assumptions react_refines_spec.
@@ -30,24 +35,24 @@ Print Assumptions react_refines_spec.
    bodies with their state pre-handlers) yields exactly [agent_run] with the effective step
    limit — for every script, tools node, return-directly set, modifier, checker, mode, MaxStep *)
 Theorem react_graph_run_is_agent_run :
-  forall tn rd rd_nonempty modifier visible checker md max_step script input,
-    engine_trace tn rd rd_nonempty modifier visible checker md max_step script input
-    = Some (agent_run tn rd rd_nonempty modifier visible checker md
+  forall tn tns rd rd_nonempty modifier visible checker md max_step script input,
+    engine_trace tn tns rd rd_nonempty modifier visible checker md max_step script input
+    = Some (agent_run tn tns rd rd_nonempty modifier visible checker md
                       (effective_max_steps max_step rd_nonempty) script input).
 Proof. exact engine_refines_agent. Qed.
 Print Assumptions react_graph_run_is_agent_run.
 
 (* hence the engine's run of the ReAct graph is the specification (DESIGN: react_graph_refines_spec) *)
 Theorem react_graph_refines_spec :
-  forall tn rd rd_nonempty modifier visible checker md max_step script input,
-    Forall (step_exact checker md) script ->
-    engine_trace tn rd rd_nonempty modifier visible checker md max_step script input
+  forall tn tns rd rd_nonempty modifier visible checker md max_step script input,
+    Forall (reply_exact tn tns rd rd_nonempty checker md) script ->
+    engine_trace tn tns rd rd_nonempty modifier visible checker md max_step script input
     = Some (react_spec tn rd rd_nonempty modifier visible script
                        (effective_max_steps max_step rd_nonempty) input).
 Proof.
-  exact (fun tn rd rdn modifier visible checker md max_step script input H =>
-           eq_trans (engine_refines_agent tn rd rdn modifier visible checker md max_step script input)
-                    (f_equal Some (agent_refines_spec tn rd rdn modifier visible checker md script
+  exact (fun tn tns rd rdn modifier visible checker md max_step script input H =>
+           eq_trans (engine_refines_agent tn tns rd rdn modifier visible checker md max_step script input)
+                    (f_equal Some (agent_refines_spec tn tns rd rdn modifier visible checker md script
                                                       (effective_max_steps max_step rdn) input H))).
 Qed.
 Print Assumptions react_graph_refines_spec.
@@ -57,9 +62,9 @@ Print Assumptions react_graph_refines_spec.
    chat or - with a return-directly set - direct_return, after which the run ends.  [chain_ok k ks]:
    ks starts with k and every node is followed by one that [follows] it *)
 Theorem supersteps_alternate :
-  forall tn rd rd_nonempty modifier visible checker md max_step script input,
+  forall tn tns rd rd_nonempty modifier visible checker md max_step script input,
   exists ks,
-    engine_supersteps tn rd rd_nonempty modifier visible checker md max_step script input
+    engine_supersteps tn tns rd rd_nonempty modifier visible checker md max_step script input
     = [] :: map (fun k => [k]) ks
     /\ chain_ok rd_nonempty kChat ks.
 Proof. exact engine_supersteps_alternate. Qed.
@@ -67,9 +72,9 @@ Print Assumptions supersteps_alternate.
 
 (* Generate needs no hypothesis beyond the checker being exact on a whole message ... *)
 Theorem react_generate_refines_spec :
-  forall tn rd rd_nonempty modifier visible checker script max_steps input,
+  forall tn tns rd rd_nonempty modifier visible checker script max_steps input,
     (forall content calls, checker [whole_chunk content calls] = nonempty calls) ->
-    agent_run tn rd rd_nonempty modifier visible checker Generate max_steps script input
+    agent_run tn tns rd rd_nonempty modifier visible checker Generate max_steps script input
     = react_spec tn rd rd_nonempty modifier visible script max_steps input.
 Proof. exact generate_refines_spec. Qed.
 Print Assumptions react_generate_refines_spec.
@@ -85,9 +90,9 @@ Print Assumptions real_checkers_exact_on_whole.
 (* the k-th model call sees (the modifier applied to) the original messages followed by every
    earlier assistant message and the tool results for its calls, in order *)
 Theorem kth_model_input :
-  forall tn rd rd_nonempty modifier visible checker md script max_steps input k h,
-    Forall (step_exact checker md) script ->
-    nth_error (t_inputs (agent_run tn rd rd_nonempty modifier visible checker md max_steps script input)) k = Some h ->
+  forall tn tns rd rd_nonempty modifier visible checker md script max_steps input k h,
+    Forall (reply_exact tn tns rd rd_nonempty checker md) script ->
+    nth_error (t_inputs (agent_run tn tns rd rd_nonempty modifier visible checker md max_steps script input)) k = Some h ->
     exists h', history tn script k input = Some h' /\ h = modifier h'.
 Proof. exact agent_kth_input. Qed.
 Print Assumptions kth_model_input.
@@ -128,17 +133,17 @@ Print Assumptions tools_node_answers_in_call_order.
    reply, and there is never a round without a model call before it nor two model calls without
    a round between them *)
 Theorem kth_round_runs_kth_reply :
-  forall tn rd rd_nonempty modifier visible checker md script max_steps input k cs,
-    Forall (step_exact checker md) script ->
-    nth_error (t_rounds (agent_run tn rd rd_nonempty modifier visible checker md max_steps script input)) k = Some cs ->
+  forall tn tns rd rd_nonempty modifier visible checker md script max_steps input k cs,
+    Forall (reply_exact tn tns rd rd_nonempty checker md) script ->
+    nth_error (t_rounds (agent_run tn tns rd rd_nonempty modifier visible checker md max_steps script input)) k = Some cs ->
     cs <> [] /\ exists content chunks, nth_error script k = Some (SMsg content cs chunks).
 Proof. exact agent_kth_round. Qed.
 Print Assumptions kth_round_runs_kth_reply.
 
 Theorem model_and_tools_alternate :
-  forall tn rd rd_nonempty modifier visible checker md script max_steps input,
-    Forall (step_exact checker md) script ->
-    let t := agent_run tn rd rd_nonempty modifier visible checker md max_steps script input in
+  forall tn tns rd rd_nonempty modifier visible checker md script max_steps input,
+    Forall (reply_exact tn tns rd rd_nonempty checker md) script ->
+    let t := agent_run tn tns rd rd_nonempty modifier visible checker md max_steps script input in
     List.length (t_rounds t) <= List.length (t_inputs t) <= S (List.length (t_rounds t)).
 Proof. exact agent_alternation. Qed.
 Print Assumptions model_and_tools_alternate.
@@ -147,77 +152,79 @@ Print Assumptions model_and_tools_alternate.
    every model input is the modifier applied to the original messages followed by a prefix of the
    handed-out messages, and a plain answer is the last message handed out *)
 Theorem message_future_is_history :
-  forall tn rd rd_nonempty modifier visible checker md script max_steps input k h,
-    Forall (step_exact checker md) script ->
+  forall tn tns rd rd_nonempty modifier visible checker md script max_steps input k h,
+    Forall (reply_exact tn tns rd rd_nonempty checker md) script ->
     (forall c, visible c = true) -> tn_in_order tn ->
-    nth_error (t_inputs (agent_run tn rd rd_nonempty modifier visible checker md max_steps script input)) k = Some h ->
-    exists n, h = modifier (input ++ firstn n (t_emits (agent_run tn rd rd_nonempty modifier visible checker md max_steps script input)))%list.
+    nth_error (t_inputs (agent_run tn tns rd rd_nonempty modifier visible checker md max_steps script input)) k = Some h ->
+    exists n, h = modifier (input ++ firstn n (t_emits (agent_run tn tns rd rd_nonempty modifier visible checker md max_steps script input)))%list.
 Proof. exact agent_emits_are_history. Qed.
 Print Assumptions message_future_is_history.
 
 Theorem message_future_ends_with_plain_answer :
-  forall tn rd rd_nonempty modifier visible checker md script max_steps input m,
-    Forall (step_exact checker md) script ->
-    t_out (agent_run tn rd rd_nonempty modifier visible checker md max_steps script input) = Final m ->
+  forall tn tns rd rd_nonempty modifier visible checker md script max_steps input m,
+    Forall (reply_exact tn tns rd rd_nonempty checker md) script ->
+    t_out (agent_run tn tns rd rd_nonempty modifier visible checker md max_steps script input) = Final m ->
     m_role m = RAssistant ->
-    exists pre, t_emits (agent_run tn rd rd_nonempty modifier visible checker md max_steps script input) = (pre ++ [m])%list.
+    exists pre, t_emits (agent_run tn tns rd rd_nonempty modifier visible checker md max_steps script input) = (pre ++ [m])%list.
 Proof. exact agent_emits_end_with_plain_answer. Qed.
 Print Assumptions message_future_ends_with_plain_answer.
 
 (* the answer is the first assistant message without tool calls, or the result of the first
    call to a return-directly tool ([answers] is that predicate) ... *)
 Theorem returns_first_plain_or_direct :
-  forall tn rd rd_nonempty modifier visible checker md script max_steps input m,
-    Forall (step_exact checker md) script ->
-    t_out (agent_run tn rd rd_nonempty modifier visible checker md max_steps script input) = Final m ->
+  forall tn tns rd rd_nonempty modifier visible checker md script max_steps input m,
+    Forall (reply_exact tn tns rd rd_nonempty checker md) script ->
+    t_out (agent_run tn tns rd rd_nonempty modifier visible checker md max_steps script input) = Final m ->
     answers tn rd rd_nonempty script m.
 Proof. exact agent_final_is_answer. Qed.
 Print Assumptions returns_first_plain_or_direct.
 
 (* ... and it is returned whenever the step limit allows the steps it needs *)
 Theorem returns_answer_within_limit :
-  forall tn rd rd_nonempty modifier visible checker md script max_steps input m,
-    Forall (step_exact checker md) script ->
+  forall tn tns rd rd_nonempty modifier visible checker md script max_steps input m,
+    Forall (reply_exact tn tns rd rd_nonempty checker md) script ->
     answers tn rd rd_nonempty script m -> steps_needed rd rd_nonempty script <= max_steps ->
-    t_out (agent_run tn rd rd_nonempty modifier visible checker md max_steps script input) = Final m.
+    t_out (agent_run tn tns rd rd_nonempty modifier visible checker md max_steps script input) = Final m.
 Proof. exact agent_answer_is_final. Qed.
 Print Assumptions returns_answer_within_limit.
 
 (* never more node executions (model calls + tool rounds + direct return) than the limit, and a
    model that keeps calling tools is stopped with the step-limit error *)
 Theorem steps_within_limit :
-  forall tn rd rd_nonempty modifier visible checker md script max_steps input,
-    Forall (step_exact checker md) script ->
-    executions (agent_run tn rd rd_nonempty modifier visible checker md max_steps script input) <= max_steps.
+  forall tn tns rd rd_nonempty modifier visible checker md script max_steps input,
+    Forall (reply_exact tn tns rd rd_nonempty checker md) script ->
+    executions (agent_run tn tns rd rd_nonempty modifier visible checker md max_steps script input) <= max_steps.
 Proof. exact agent_steps_bounded. Qed.
 Print Assumptions steps_within_limit.
 
 Theorem stops_with_step_limit :
-  forall tn rd rd_nonempty modifier visible checker md script max_steps input,
-    Forall (step_exact checker md) script ->
+  forall tn tns rd rd_nonempty modifier visible checker md script max_steps input,
+    Forall (reply_exact tn tns rd rd_nonempty checker md) script ->
     Forall (looping tn rd rd_nonempty) script -> max_steps <= 2 * List.length script ->
-    t_out (agent_run tn rd rd_nonempty modifier visible checker md max_steps script input) = Failed EStepLimit.
+    t_out (agent_run tn tns rd rd_nonempty modifier visible checker md max_steps script input) = Failed EStepLimit.
 Proof. exact agent_step_limit_stops. Qed.
 Print Assumptions stops_with_step_limit.
 
 (* Generate and Stream agree — whole trace: model inputs, tool rounds, outcome — for every
    chunking of the replies, GIVEN a checker that is exact on those chunkings (checker_exact) *)
 Theorem generate_stream_agree :
-  forall tn rd rd_nonempty modifier visible checker script max_steps input,
+  forall tn tns rd rd_nonempty modifier visible checker script max_steps input,
     (forall content calls, checker [whole_chunk content calls] = nonempty calls) ->
     Forall chunking_valid script ->
     Forall (checker_exact checker) script ->
-    agent_run tn rd rd_nonempty modifier visible checker Stream max_steps script input
-    = agent_run tn rd rd_nonempty modifier visible checker Generate max_steps script input.
+    Forall (tools_stream_exact tn tns rd rd_nonempty) script ->
+    agent_run tn tns rd rd_nonempty modifier visible checker Stream max_steps script input
+    = agent_run tn tns rd rd_nonempty modifier visible checker Generate max_steps script input.
 Proof. exact generate_stream_agree_gen. Qed.
 Print Assumptions generate_stream_agree.
 
 (* a checker that reads the whole stream satisfies checker_exact on every chunking *)
 Theorem generate_stream_agree_with_exact_checker :
-  forall tn rd rd_nonempty modifier visible script max_steps input,
+  forall tn tns rd rd_nonempty modifier visible script max_steps input,
     Forall chunking_valid script ->
-    agent_run tn rd rd_nonempty modifier visible exact_checker Stream max_steps script input
-    = agent_run tn rd rd_nonempty modifier visible exact_checker Generate max_steps script input.
+    Forall (tools_stream_exact tn tns rd rd_nonempty) script ->
+    agent_run tn tns rd rd_nonempty modifier visible exact_checker Stream max_steps script input
+    = agent_run tn tns rd rd_nonempty modifier visible exact_checker Generate max_steps script input.
 Proof. exact generate_stream_agree_exact_checker. Qed.
 Print Assumptions generate_stream_agree_with_exact_checker.
 
@@ -235,13 +242,93 @@ Print Assumptions default_checker_exact_iff_tool_calls_first.
    structural part of the finding's signature; the correspondence check compares the harness's
    classification of every scripted reply with [content_before_toolcall]) *)
 Theorem generate_stream_agree_with_default_checker :
-  forall tn rd rd_nonempty modifier visible script max_steps input,
+  forall tn tns rd rd_nonempty modifier visible script max_steps input,
     Forall chunking_valid script ->
     Forall tool_calls_first script ->
-    agent_run tn rd rd_nonempty modifier visible default_checker Stream max_steps script input
-    = agent_run tn rd rd_nonempty modifier visible default_checker Generate max_steps script input.
+    Forall (tools_stream_exact tn tns rd rd_nonempty) script ->
+    agent_run tn tns rd rd_nonempty modifier visible default_checker Stream max_steps script input
+    = agent_run tn tns rd rd_nonempty modifier visible default_checker Generate max_steps script input.
 Proof. exact generate_stream_agree_default. Qed.
 Print Assumptions generate_stream_agree_with_default_checker.
+
+(* ---- the tools node in Stream mode, and the return-directly branch ------------------------- *)
+(* [tools_exact] follows from ONE fact about the tools node's stream: its frames concatenate,
+   position by position, to the Invoke answer.  Then the chat node receives that answer and
+   direct_return's frame-by-frame filter yields the tool message at the filtered position, for
+   every position (no assumption on the tool-call ids: they may be empty or repeat) *)
+Theorem frames_concatenating_to_invoke_answer_are_exact :
+  forall ids em results,
+    concat_pos ids em = Ok (map Some results) ->
+    tout_results (TFrames ids em) = Ok results
+    /\ forall i, tout_direct i (TFrames ids em) = nth_error results i.
+Proof. exact frames_exact. Qed.
+Print Assumptions frames_concatenating_to_invoke_answer_are_exact.
+
+(* ... and compose.ToolsNode - Model/Tools.v's tools_invoke / tools_stream_open / merge_run, the
+   definitions the correspondence check evaluates - has that property for every completion order
+   of the tools ([pi_of], [pi_of']) and every complete interleaving of their streams
+   ([sched_of]), whenever every call of the round is answered by a stream of at least one chunk
+   (any of them empty) without error item that concatenates to the invoked answer (from property
+   C17: stream_concat, invoke_spec) *)
+Theorem tools_node_streams_exactly :
+  forall kind_of inv str handler pi_of pi_of' sched_of rd rd_nonempty calls css,
+    calls <> [] ->
+    Permutation (pi_of calls) (seq 0 (List.length calls)) ->
+    Permutation (pi_of' calls) (seq 0 (List.length calls)) ->
+    Forall2 (fun c cs => s_answer kind_of inv str handler c = Ok (SOk cs None) /\ cs <> []) calls css ->
+    Forall2 (fun c cs => answer kind_of inv str handler c = Ok (Tools.TOk (concat_strings cs))) calls css ->
+    (forall srcs, tails_none srcs -> drained (merge_rest (sched_of srcs) srcs) = true) ->
+    tools_exact (node_tn kind_of inv str handler pi_of) (node_tns kind_of inv str handler pi_of' sched_of)
+                rd rd_nonempty Stream calls
+    /\ node_tn kind_of inv str handler pi_of calls = Ok (combine (map concat_strings css) (map c_id calls)).
+Proof. exact tools_node_stream_exact. Qed.
+Print Assumptions tools_node_streams_exactly.
+
+(* the interleaving the correspondence check uses is complete *)
+Theorem canonical_interleaving_is_complete :
+  forall srcs, tails_none srcs -> drained (merge_rest (seq_sched srcs) srcs) = true.
+Proof. exact seq_sched_drains. Qed.
+Print Assumptions canonical_interleaving_is_complete.
+
+(* the tools of one round finish in any order: model inputs, tool rounds, handed-out messages and
+   outcome of the whole run do not depend on it, in either mode *)
+Theorem tool_completion_order_is_irrelevant :
+  forall kind_of inv str handler pi1 pi1' pi2 pi2' sched_of rd rd_nonempty modifier visible checker md max_steps script input,
+    (forall calls, Permutation (pi1 calls) (seq 0 (List.length calls))) ->
+    (forall calls, Permutation (pi1' calls) (seq 0 (List.length calls))) ->
+    (forall calls, Permutation (pi2 calls) (seq 0 (List.length calls))) ->
+    (forall calls, Permutation (pi2' calls) (seq 0 (List.length calls))) ->
+    agent_run (node_tn kind_of inv str handler pi1) (node_tns kind_of inv str handler pi1' sched_of)
+              rd rd_nonempty modifier visible checker md max_steps script input
+    = agent_run (node_tn kind_of inv str handler pi2) (node_tns kind_of inv str handler pi2' sched_of)
+                rd rd_nonempty modifier visible checker md max_steps script input.
+Proof. exact completion_order_irrelevant. Qed.
+Print Assumptions tool_completion_order_is_irrelevant.
+
+(* the return-directly position is that of the FIRST call to a return-directly tool *)
+Theorem return_directly_position_is_first_rd_call :
+  forall rd calls i,
+    rd_call_index rd calls = Some i <->
+    exists c, nth_error calls i = Some c /\ rd (c_name c) = true
+              /\ forall j c', j < i -> nth_error calls j = Some c' -> rd (c_name c') = false.
+Proof. exact rd_call_index_first. Qed.
+Print Assumptions return_directly_position_is_first_rd_call.
+
+(* FIXED FINDING F-C18b (fix a2b0142): before, the return-directly call was identified by its
+   tool-call id.  Witness: an assistant message calling search and then the return-directly tool
+   calc.  Both calls carrying the id "x": Invoke answered with search's result (a tool that is not
+   return-directly), Stream with the two results run together; no ids: no direct return at all.
+   The code as it is now (position) answers calc's result in both modes in both cases. *)
+Theorem return_directly_by_id_refuted :
+  direct_answer_v0 v0_rd (v0_calls "x") (v0_whole "x") = Some (Some ("search(a)", "x"))
+  /\ direct_answer_v0 v0_rd (v0_calls "x") (v0_frames "x") = Some (Some ("search(calc(a)b)", "x"))
+  /\ direct_answer_v0 v0_rd (v0_calls "") (v0_whole "") = None
+  /\ direct_answer v0_rd (v0_calls "x") (v0_whole "x") = Some (Some ("calc(b)", "x"))
+  /\ direct_answer v0_rd (v0_calls "x") (v0_frames "x") = Some (Some ("calc(b)", "x"))
+  /\ direct_answer v0_rd (v0_calls "") (v0_whole "") = Some (Some ("calc(b)", ""))
+  /\ direct_answer v0_rd (v0_calls "") (v0_frames "") = Some (Some ("calc(b)", "")).
+Proof. exact return_directly_by_id_wrong. Qed.
+Print Assumptions return_directly_by_id_refuted.
 
 (* KNOWN FINDING F-C18: the default first-chunk checker is not exact.  Witness: the model streams
    "Let me check. " and then the tool call; the chunks do concatenate to the scripted message,
@@ -318,6 +405,13 @@ Print Assumptions host_rejects_other_replies.
 (* ---- non-vacuity ----------------------------------------------------------------------- *)
 Definition ex_tn (calls : list call) : res (list tmsg) :=
   Ok (map (fun c => (c_name c ++ "(" ++ c_args c ++ ")", c_id c)) calls).
+(* the same tools streamed: two frames per call (the name, then the parenthesised arguments - an
+   empty frame content when a piece is empty), the calls' streams interleaved round-robin *)
+Definition ex_tns (calls : list call) : res (list string * list emitted) :=
+  let idx := combine (seq 0 (List.length calls)) calls in
+  let names := map (fun p => (fst p, c_name (snd p))) idx in
+  let args := map (fun p => (fst p, ("(" ++ c_args (snd p) ++ ")")%string)) idx in
+  Ok (map c_id calls, (names ++ args)%list).
 Definition ex_rd (n : string) : bool := String.eqb n "final".
 Definition ex_script : list step :=
   [ SMsg "" [mkCall "a0" "search" "x"; mkCall "a1" "calc" "y"]
@@ -338,42 +432,68 @@ Proof.
   vm_compute. repeat split; repeat constructor.
   intro H. inversion H as [|? ? H1 _]. discriminate H1.
 Qed.
+(* ... and so does the tools part: the streamed tools of the example are exact on every round *)
+Example reply_exact_nonvacuous :
+  Forall (reply_exact ex_tn ex_tns ex_rd true default_checker Stream) ex_script
+  /\ Forall (reply_exact ex_tn ex_tns ex_rd true default_checker Generate) ex_script
+  /\ Forall (tools_stream_exact ex_tn ex_tns ex_rd true) ex_script.
+Proof.
+  assert (T : Forall (tools_stream_exact ex_tn ex_tns ex_rd true) ex_script).
+  { unfold ex_script. apply Forall_cons; [|apply Forall_cons; [|apply Forall_cons; [|apply Forall_nil]]];
+      [| |intro H; contradiction H; reflexivity];
+      (intros _; unfold tools_exact; cbn [ex_tn]; eexists; eexists; split; [reflexivity|];
+       match goal with
+       | |- tout_results (TFrames ?ids ?em) = Ok ?rs /\ _ =>
+           destruct (frames_exact ids em rs ltac:(vm_compute; reflexivity)) as [A B]; split; [exact A|intros i _; apply B]
+       end). }
+  destruct step_exact_nonvacuous as [S1 [S2 _]].
+  assert (C : forall md, Forall (step_exact default_checker md) ex_script ->
+                         Forall (fun s => match s with
+                                          | SMsg _ calls _ => calls <> [] -> tools_exact ex_tn ex_tns ex_rd true md calls
+                                          | SFail => True
+                                          end) ex_script ->
+                         Forall (reply_exact ex_tn ex_tns ex_rd true default_checker md) ex_script).
+  { intros md A B. apply Forall_forall. intros s Hs.
+    split; [exact (proj1 (Forall_forall _ _) A s Hs)|exact (proj1 (Forall_forall _ _) B s Hs)]. }
+  split; [apply C; [exact S1|exact T]|split; [apply C; [exact S2|]|exact T]].
+  apply Forall_forall. intros s _. destruct s; simpl; auto.
+Qed.
 (* ... the run is two rounds ending in a return-directly result, identically in both modes *)
 Example run_nonvacuous :
-  let t := agent_run ex_tn ex_rd true (fun h => h) (fun _ => true) default_checker Stream 13 ex_script ex_input in
+  let t := agent_run ex_tn ex_tns ex_rd true (fun h => h) (fun _ => true) default_checker Stream 13 ex_script ex_input in
   t_out t = Final (mkMsg RTool "final(w)" [] "b1")
   /\ List.length (t_inputs t) = 2%nat /\ List.length (t_rounds t) = 2%nat
-  /\ t = agent_run ex_tn ex_rd true (fun h => h) (fun _ => true) default_checker Generate 13 ex_script ex_input
+  /\ t = agent_run ex_tn ex_tns ex_rd true (fun h => h) (fun _ => true) default_checker Generate 13 ex_script ex_input
   /\ nth_error (t_inputs t) 1
      = Some [mkMsg RUser "q" [] ""; assistant "" [mkCall "a0" "search" "x"; mkCall "a1" "calc" "y"];
              mkMsg RTool "search(x)" [] "a0"; mkMsg RTool "calc(y)" [] "a1"].
 Proof. vm_compute. repeat split; reflexivity. Qed.
 (* ... and with one step less the direct-return node cannot run *)
 Example step_limit_nonvacuous :
-  t_out (agent_run ex_tn ex_rd true (fun h => h) (fun _ => true) default_checker Generate 4 ex_script ex_input) = Failed EStepLimit
-  /\ t_out (agent_run ex_tn ex_rd true (fun h => h) (fun _ => true) default_checker Generate 5 ex_script ex_input)
+  t_out (agent_run ex_tn ex_tns ex_rd true (fun h => h) (fun _ => true) default_checker Generate 4 ex_script ex_input) = Failed EStepLimit
+  /\ t_out (agent_run ex_tn ex_tns ex_rd true (fun h => h) (fun _ => true) default_checker Generate 5 ex_script ex_input)
      = Final (mkMsg RTool "final(w)" [] "b1").
 Proof. vm_compute. split; reflexivity. Qed.
 Example looping_nonvacuous :
   Forall (looping ex_tn ex_rd false) (firstn 2 ex_script)
-  /\ t_out (agent_run ex_tn ex_rd false (fun h => h) (fun _ => true) exact_checker Stream 4 (firstn 2 ex_script) ex_input) = Failed EStepLimit.
+  /\ t_out (agent_run ex_tn ex_tns ex_rd false (fun h => h) (fun _ => true) exact_checker Stream 4 (firstn 2 ex_script) ex_input) = Failed EStepLimit.
 Proof. vm_compute. split; [repeat constructor; try discriminate; eexists; reflexivity | reflexivity]. Qed.
 (* the tools node of the examples answers in call order; the future's messages of the example run *)
 Example tn_in_order_nonvacuous : tn_in_order ex_tn.
 Proof. intros calls results H. inversion H. rewrite map_map. reflexivity. Qed.
 Example future_nonvacuous :
-  let t := agent_run ex_tn ex_rd true (fun h => h) (fun _ => true) default_checker Stream 13 ex_script ex_input in
+  let t := agent_run ex_tn ex_tns ex_rd true (fun h => h) (fun _ => true) default_checker Stream 13 ex_script ex_input in
   List.length (t_emits t) = 6%nat
   /\ nth_error (t_inputs t) 1 = Some (ex_input ++ firstn 3 (t_emits t))%list
   /\ nth_error (t_rounds t) 1 = Some [mkCall "b0" "search" "z"; mkCall "b1" "final" "w"].
 Proof. vm_compute. repeat split; reflexivity. Qed.
 (* the engine's supersteps on the example: one node per superstep, chat/tools alternating, then direct_return *)
 Example engine_supersteps_nonvacuous :
-  engine_supersteps ex_tn ex_rd true (fun h => h) (fun _ => true) default_checker Stream 0 ex_script ex_input
+  engine_supersteps ex_tn ex_tns ex_rd true (fun h => h) (fun _ => true) default_checker Stream 0 ex_script ex_input
   = [[]; [kChat]; [kTools]; [kChat]; [kTools]; [kDirect]]
-  /\ engine_trace ex_tn ex_rd true (fun h => h) (fun _ => true) default_checker Stream 4 ex_script ex_input
-     = Some (agent_run ex_tn ex_rd true (fun h => h) (fun _ => true) default_checker Stream 4 ex_script ex_input)
-  /\ option_map t_out (engine_trace ex_tn ex_rd true (fun h => h) (fun _ => true) default_checker Stream 4 ex_script ex_input)
+  /\ engine_trace ex_tn ex_tns ex_rd true (fun h => h) (fun _ => true) default_checker Stream 4 ex_script ex_input
+     = Some (agent_run ex_tn ex_tns ex_rd true (fun h => h) (fun _ => true) default_checker Stream 4 ex_script ex_input)
+  /\ option_map t_out (engine_trace ex_tn ex_tns ex_rd true (fun h => h) (fun _ => true) default_checker Stream 4 ex_script ex_input)
      = Some (Failed EStepLimit).
 Proof. vm_compute. repeat split; reflexivity. Qed.
 Example host_nonvacuous :
